@@ -8,7 +8,7 @@ use serde_json::{json, Value};
 use crate::engine::{catch, h64, par_range, run_generated, Ctx, Stats};
 use crate::oracle::page::{bit_pos, bpc, data_len, new_bytes, total_len, REAL_SIZES};
 
-pub const RULE: &str = "sizes: every width x height in 0..=32 x 0..=34 (quick) / 0..=64 x 0..=48 (thorough), the 11 real sizes, 1x255, 255x1, 300x9, 1000x64 and pages taller than 256 rows (2x257, 3x300, 1x1030); for each size: new-page bytes for several ids (all 256 ids on selected sizes) against the closed-form layout, every pixel set alone on a blank page must flip exactly bit y%8 of byte 4+x*ceil(h/8)+y/8 (bijection pixels<->bits), from_bytes with candidate lengths {0, total-16, total-1, total, total+1, total+16, unpadded} must succeed exactly for the padded length, expose exactly the given bytes and equal the page that produced them (also after generated edits). Non-trivial = height not a multiple of 8, or data already on a 16-byte boundary, or >= 2 bytes per column; distinct by size (and content hash for generated cases)";
+pub const RULE: &str = "sizes: every width x height in 0..=32 x 0..=34 (quick) / 0..=64 x 0..=48 (thorough), the 11 real sizes, 1x255, 255x1, 300x9, 1000x64 pages taller than 256 rows (2x257, 3x300, 1x1030) and dimensions within 10 of u32::MAX (against small buffers only); for each size: new-page bytes for several ids (all 256 ids on selected sizes) against the closed-form layout, every pixel set alone on a blank page must flip exactly bit y%8 of byte 4+x*ceil(h/8)+y/8 (bijection pixels<->bits), from_bytes with candidate lengths {0, total-16, total-1, total, total+1, total+16, unpadded} must succeed exactly for the padded length, expose exactly the given bytes and equal the page that produced them (also after generated edits). Non-trivial = height not a multiple of 8, or data already on a 16-byte boundary, or >= 2 bytes per column; distinct by size (and content hash for generated cases)";
 pub const ASSUMPTIONS: &[&str] = &["the closed-form layout in oracle/page.rs is a correct reading of the C07 statement"];
 
 #[derive(Serialize, Deserialize, Debug, Clone, PartialEq, Eq, Hash)]
@@ -209,6 +209,33 @@ pub fn check_edited(c: &EditedCase, st: &mut Stats) -> Result<(), String> {
     Ok(())
 }
 
+/// Extreme dimensions: nothing may overflow. A zero-width page of any height is 16 bytes; a page whose padded size
+/// is astronomically large must simply be rejected when given a small buffer.
+pub fn check_extreme(w: u32, h: u32, st: &mut Stats) -> Result<(), String> {
+    let total = total_len(w, h);
+    if w == 0 || h == 0 {
+        let want = new_bytes(0x5A, w, h);
+        let p = catch(|| Page::new(PageId(0x5A), w, h)).map_err(|e| format!("Page::new(_, {w}, {h}) panicked: {e}"))?;
+        st.eval();
+        if p.as_bytes() != &want[..] || p.width() != w || p.height() != h {
+            return Err(format!("Page::new(_, {w}, {h}) is not the 16-byte page the layout prescribes"));
+        }
+    }
+    for len in [0usize, 4, 15, 16, 17, 32, 4096] {
+        let buf = vec![0xA5u8; len];
+        let r = catch(|| Page::from_bytes(w, h, &buf[..]).map(|p| p.as_bytes().to_vec())).map_err(|e| format!("from_bytes({w}, {h}, {len} bytes) panicked: {e}"))?;
+        st.eval();
+        match (len == total, r) {
+            (true, Ok(b)) if b == buf => {}
+            (true, Ok(_)) => return Err(format!("from_bytes({w}, {h}) does not expose the bytes given")),
+            (true, Err(e)) => return Err(format!("from_bytes({w}, {h}) rejected the padded length {len}: {e}")),
+            (false, Ok(_)) => return Err(format!("from_bytes({w}, {h}) accepted {len} bytes although the padded size is {total}")),
+            (false, Err(_)) => {}
+        }
+    }
+    Ok(())
+}
+
 pub fn run(ctx: &Ctx) {
     let (bw, bh) = ctx.tier.pick((32u32, 34u32), (64u32, 48u32));
     par_range(ctx, "box", ((bw + 1) * (bh + 1)) as u64, |i, st| {
@@ -237,6 +264,22 @@ pub fn run(ctx: &Ctx) {
         Ok(())
     });
     ctx.part_done("real-and-large-sizes", true, json!("11 real sizes, 4 large sizes, 3 degenerate sizes"));
+
+    let mut extremes: Vec<(u32, u32)> = vec![];
+    for d in 0..=9u32 {
+        extremes.push((0, u32::MAX - d));
+        extremes.push((u32::MAX - d, 0));
+        extremes.push((1, u32::MAX - d));
+        extremes.push((u32::MAX - d, 1));
+    }
+    extremes.extend_from_slice(&[(0, 1 << 31), (3, u32::MAX / 2), (u32::MAX, u32::MAX), (65536, 65536), (0x1000_0000, 8), (0x0FFF_FFFF, 16)]);
+    par_range(ctx, "extreme-dimensions", extremes.len() as u64, |i, st| {
+        let (w, h) = extremes[i as usize];
+        check_extreme(w, h, st).map_err(|m| (json!({"w": w, "h": h, "id": 0}), m))?;
+        st.nontrivial_enumerated(1);
+        Ok(())
+    });
+    ctx.part_done("extreme-dimensions", true, json!("widths/heights within 10 of u32::MAX (zero-width or zero-height pages are 16 bytes; others must reject small buffers), no arithmetic may overflow"));
 
     // all ids on three sizes
     par_range(ctx, "all-ids", 256, |id, st| {
@@ -279,5 +322,8 @@ pub fn replay(part: &str, case: &Value) -> Result<(), String> {
         return check_edited(&c, &mut st);
     }
     let c: SizeCase = serde_json::from_value(case.clone()).map_err(|e| format!("bad case: {e}"))?;
+    if part == "extreme-dimensions" {
+        return check_extreme(c.w, c.h, &mut st);
+    }
     check_size(&c, &mut st)
 }
